@@ -379,6 +379,16 @@ fn print_side(rep: &mut Report, rng: &mut Rng, cfg: &GenCfg, tb: &Tables, pi: us
             } else if s.as_bytes() != &b[..] {
                 rep.violation("print", "C17:string-differs-from-sink-bytes".into(), format!("to_string_custom gives {:?} but to_vec_custom gives {:?}", show(s.as_bytes()), show(&b)), json!({"options_index": pi}));
             }
+            // ... and identical to what a sink that takes a few bytes per call receives
+            {
+                rep.eval();
+                let mut w = crate::mon::io::ShortWriter::new(crate::mon::io::WriteSchedule::Random, rng.fork());
+                let r = lexpr::to_writer_custom(&mut w, &v, p.to_lexpr());
+                if r.is_err() || w.out != b {
+                    rep.violation("print", "C17:string-differs-from-short-sink-bytes".into(), format!("{} with {}: to_string_custom gives {:?} but a sink accepting 1-7 bytes per call received {:?} (result {:?})", dbg_value(&v), p.describe(), show(&b), show(&w.out), r), json!({"options_index": pi}));
+                    return;
+                }
+            }
             if pi == P::default_().index() {
                 if let (Ok(s2), Ok(b2)) = (lexpr::to_string(&v), lexpr::to_vec(&v)) {
                     rep.eval();
